@@ -443,6 +443,12 @@ impl<'a> Gen<'a> {
                                 Box::new(Expr::Num(3.0)),
                             )))]),
                         }
+                    } else if self.k.failures && self.rng.chance(1, 6) {
+                        // a cell that cannot be stored into: the reply suits, the assignment fails
+                        LValue {
+                            name: self.rng.pick(&["C", "K", "C$"]).to_string(),
+                            index: Some(vec![Expr::Num(11.0 + self.rng.below(80) as f64)]),
+                        }
                     } else if self.k.strings && self.rng.chance(1, 3) {
                         self.str_target()
                     } else {
@@ -589,6 +595,12 @@ impl<'a> Gen<'a> {
                     let mut l = vec![Stmt::Data(items)];
                     if self.k.multi_stmt && self.rng.chance(1, 4) {
                         l.push(self.tag());
+                    }
+                    if self.k.multi_stmt && self.rng.chance(1, 4) {
+                        // a second DATA statement on the same line: READ goes through both, in order
+                        let n = 1 + self.rng.usize(3);
+                        let more = (0..n).map(|_| self.data_item()).collect();
+                        l.push(Stmt::Data(more));
                     }
                     self.push_line(l);
                 }
@@ -1015,6 +1027,21 @@ pub struct GenInfo {
 // ------------------------------------------------------------------ replies
 
 pub fn reply_for(rng: &mut Rng, numeric_bias: bool) -> Reply {
+    // replies longer than any classic line buffer: nothing is cut off
+    if rng.chance(1, 40) {
+        return match rng.below(3) {
+            0 => {
+                let w = format!("{}{}", "z".repeat(260 + rng.usize(60)), rng.below(10));
+                Reply { text: format!("\"{}\"", w), first: ReplyItem::Text(w), surplus: false }
+            }
+            1 => Reply { text: format!("5{},6", " ".repeat(270 + rng.usize(30))), first: ReplyItem::Num(5.0), surplus: true },
+            _ => {
+                let digits = format!("1{}", "0".repeat(256 + rng.usize(40)));
+                let n: f64 = digits.parse().unwrap();
+                Reply { text: digits, first: ReplyItem::Num(n), surplus: false }
+            }
+        };
+    }
     // first item
     let (mut text, first): (String, ReplyItem) = match rng.below(if numeric_bias { 10 } else { 14 }) {
         0..=3 => {
